@@ -12,4 +12,5 @@ CONF = {
                     'gopacket.LayerString/LayerDump/LayerGoString total on non-nil layers (reflective); no String methods'],
     'trusted_base': ['model: coq/Model/Ldot11subModel.v is a hand transcription of the sub-layer decoders of layers/dot11.go and of decodeDot11 :1008-1019'],
     'explanation': 'These layers decode no field (they store the bytes as Contents or Payload): the theorems (no panic on any byte string, a reused object equals a fresh one after any history of decodes, renderers total) are immediate; the chain ties NextLayerType dispatch of Dot11 and of the sub-layers to the real packet decoder.',
+    'mutations_tried': ['decodeDot11 does not add the Dot11 layer (caught)', 'Dot11.NextLayerType: WEP only when Retry is also set (caught through the seed frames)'],
 }
